@@ -106,6 +106,14 @@ def surface_tie_violations(wj, surfaces):
                     "triangulation: the pre-test rejects depths the local surface accepts" % (mn, mx, key, lo, hi),
                     {"kind": "world", "world": wj, "surface": key, "probe_line": "surfaces 0"}))
     for key, sv in (surfaces or {}).items():
+        # the hypothesis of theorem C11_no_point_of_a_triangle_is_missed: the vertices of every triangle come clockwise
+        for t in sv["tris"]:
+            det = (t[1][0] - t[0][0]) * (t[2][1] - t[0][1]) - (t[2][0] - t[0][0]) * (t[1][1] - t[0][1])
+            if det > 0:
+                out.append(("a triangle of the depth surface %s is listed counter-clockwise (%s): the point-in-triangle test accepts none of its points" % (key, t),
+                            {"kind": "world", "world": wj, "surface": key, "probe_line": "surfaces 0"}))
+                break
+    for key, sv in (surfaces or {}).items():
         v = json_at(wj, key)
         if isinstance(v, list) and any(isinstance(e, list) and len(e) == 2 for e in v) and sv["const"]:
             out.append(("the points listed for %s are ignored: the implementation treats the surface as the constant %g" % (key, sv["min"]),
